@@ -16,6 +16,10 @@ read; SCHEMA below is the same list, with types):
 
     Template / Output / TemplateData   concatenation of pieces; data is `.lit "<text>"`
     {{ e }}                            `.expr "<source of e>" <value>`   (e : str, or int through `Tpl.jstrInt`)
+                                       the source text is CANONICAL: a loop variable is written `<iterable>[]`, a
+                                       `set` variable as its defining expression — `output_file.imports_end[]`,
+                                       `output_file.services[].methods[].route` — so renaming a template variable
+                                       changes nothing, and the five loops over import sets have five different tags
     {% for x in it %}                  `List.flatMap (fun x => body) it`; `Tpl.forLast it (fun x loop_last => body)`
                                        when the body reads `loop.last` (nothing else of `loop` is accepted)
     {% if %} / {% elif %} / {% else %}  `if t then … else …` with the truthiness of t's type
@@ -143,7 +147,7 @@ class Tr:
                 raise Unsupported("%s: name %s" % (self.name, e.name))
             if e.name == "loop":
                 raise Unsupported("%s: bare `loop`" % self.name)
-            return env[e.name][0], env[e.name][1], e.name
+            return env[e.name][0], env[e.name][1], env[e.name][2]
         if isinstance(e, N.Const):
             if isinstance(e.value, str):
                 return "%s.toList" % lean_string(e.value), "str", repr(e.value)
@@ -255,9 +259,9 @@ class Tr:
             x = st.target.name
             if x in env or x == "loop":
                 raise Unsupported("%s: {%% set %s %%} rebinds" % (self.name, x))
-            t, ty, _ = self.expr(st.node, env)
+            t, ty, xsrc = self.expr(st.node, env)
             env = dict(env)
-            env[x] = ("v_" + x, ty)
+            env[x] = ("v_" + x, ty, xsrc)
             return ind + "(let v_%s := %s\n" % (x, t) + self.block(rest, env, depth, top) + ")"
         head = self.stmt(st, env, depth + 1 if rest else depth)
         if not rest:
@@ -277,16 +281,16 @@ class Tr:
             x = st.target.name
             if x in env or x == "loop":
                 raise Unsupported("%s: loop variable %s shadows" % (self.name, x))
-            it, ity, _ = self.expr(st.iter, env)
+            it, ity, itsrc = self.expr(st.iter, env)
             if not (isinstance(ity, tuple) and ity[0] in ("list", "set")):
                 raise Unsupported("%s: for over %s" % (self.name, ity))
             env2 = dict(env)
-            env2[x] = ("v_" + x, ity[1])
+            env2[x] = ("v_" + x, ity[1], "(%s)[]" % itsrc if "|" in itsrc else itsrc + "[]")
             env2.pop("loop", None)
             if self.uses_loop(st.body):
                 self.fresh += 1
                 last = "loop_last%d" % self.fresh
-                env2["loop"] = (last, "loop")
+                env2["loop"] = (last, "loop", "loop")
                 body = self.block(st.body, env2, depth + 2)
                 return ind + "(Tpl.forLast %s (fun (v_%s : %s) (%s : Bool) =>\n%s))" % (it, x, LEAN_TY(ity[1]), last, body)
             body = self.block(st.body, env2, depth + 2)
@@ -317,7 +321,7 @@ def translate(fname, lean_name):
     if not isinstance(tree, N.Template):
         raise Unsupported(fname + ": not a Template")
     tr = Tr(fname)
-    body = tr.block(list(tree.body), {"output_file": ("output_file", "OutputFile")}, 1, top=True)
+    body = tr.block(list(tree.body), {"output_file": ("output_file", "OutputFile", "output_file")}, 1, top=True)
     return ("/- %s -/\ndef %s (output_file : Tpl.OutputFile) : List Tpl.Piece :=\n%s\n" % (fname, lean_name, body),
             source)
 
